@@ -11,6 +11,7 @@ import (
 	"context"
 	"os"
 	"regexp"
+	"runtime/pprof"
 	"sort"
 	"sync"
 	"testing"
@@ -57,6 +58,7 @@ const (
 	seenTTL      = 10 * time.Second
 	slowValidate = 8 * time.Second // validation time of "slow" messages (payload starts with 's')
 	queueSize    = 8               // outbound queue size of the node (pgflood overflows it)
+	watchdog     = 4 * time.Minute // real time
 )
 
 var topicSuffix = regexp.MustCompile(`\[.*\]$`)
@@ -434,7 +436,8 @@ func TestC13Replay(t *testing.T) {
 	out := vh.NewOut(t, "VERIF_OUT")
 	only := vh.EnvInt("VERIF_ONLY", -1)
 	shard, shards := vh.EnvInt("VERIF_SHARD", 0), vh.EnvInt("VERIF_SHARDS", 1)
-	after := vh.EnvInt("VERIF_AFTER", -1) // resume this shard behind the scenario a previous run died in
+	after := vh.EnvInt("VERIF_AFTER", -1) // resume this shard behind the last lifecycle a previous run recorded completely
+	skip := vh.EnvInt("VERIF_SKIP", -1)   // ... leaving out the lifecycle it died in
 	skipping := after >= 0
 	for i, s := range scns {
 		if only >= 0 && s.ID != only {
@@ -449,7 +452,24 @@ func TestC13Replay(t *testing.T) {
 			}
 			continue
 		}
+		if s.ID == skip {
+			continue
+		}
 		marker(s.ID)
+		// self-test hooks of the orchestrator's dead-driver handling (never set by bin/check)
+		if (s.ID == vh.EnvInt("VERIF_C13_DIE", -1) && only < 0) || s.ID == vh.EnvInt("VERIF_C13_DIEHARD", -1) {
+			os.Exit(3)
+		}
+		// watchdog in REAL time (outside the bubble): a lifecycle normally takes ~25 ms; if one does not come back
+		// the goroutines are dumped and the process exits so that the orchestrator can attribute and resume
+		id := s.ID
+		wd := time.AfterFunc(watchdog, func() {
+			os.Stderr.WriteString(vh.Sprintf("c13: WATCHDOG lifecycle %d did not finish within %s of real time\n", id, watchdog))
+			pprof.Lookup("goroutine").WriteTo(os.Stderr, 1)
+			out.Close()
+			os.Exit(3)
+		})
 		runScenario(t, out, s)
+		wd.Stop()
 	}
 }
